@@ -45,6 +45,10 @@ structure FieldMeta where
   style : B := []     -- Tag.Get("style")
   explode : B := []   -- Tag.Get("explode")
   typeIs : B := []    -- type identity after one pointer level: "ip" (net.IP), "url" (url.URL) or ""
+  docT : B := []      -- Tag.Get("doc")
+  exampleT : B := []  -- Tag.Get("example")
+  enumT : B := []     -- Tag.Get("enum")
+  formatT : B := []   -- Tag.Get("format")
   deriving DecidableEq, Repr, Inhabited
 
 inductive Ty
@@ -212,6 +216,7 @@ structure Head where
   maxLength : Option Nat := none
   required : List B := []
   dflt : Option DV := none               -- `Default any` (from the `default` tag of a parameter field)
+  description : B := []                  -- `Description` (from the `doc` tag of a struct field)
   deriving DecidableEq, Repr, Inhabited
 
 mutual
@@ -349,6 +354,14 @@ def applyConstraintsHead (v : B) (h : Head) : Head :=
 
 def applyConstraints (v : B) (t : IR) : IR := t.modHead (applyConstraintsHead v)
 
+/-- `if doc != "" { fs.Description = doc }; if ex != "" { fs.Example = ex }` in the walkFields callback of
+    structSchema / GenerateProjected (on a `$ref` schema both are dropped by the projections) -/
+def docTagsHead (m : FieldMeta) (h : Head) : Head :=
+  { h with description := if m.docT ≠ [] then m.docT else h.description,
+           exampleV := if m.exampleT ≠ [] then m.exampleT else h.exampleV }
+
+def docTags (m : FieldMeta) (t : IR) : IR := t.modHead (docTagsHead m)
+
 /-! ## Generate / structSchema / GenerateProjected -/
 
 /-- component schemas registered so far, newest first (`sg.schemas`) -/
@@ -434,7 +447,7 @@ mutual
       else
         let fieldName := parseJSONName m.json m.name
         let r := gen env seen opn t st
-        let fsch := applyConstraints m.validate r.1
+        let fsch := applyConstraints m.validate (docTags m r.1)
         let req' :=
           if isFieldRequired env m t && !contains m.json (s "omitempty") && !req.contains fieldName
           then req ++ [fieldName] else req
